@@ -37,7 +37,12 @@ def add_quiescent_points(case: dict, rng, every=(3, 7)) -> dict:
     return case
 
 
-def compare_views(ctx, prop: str, mailbox: str = 'INBOX') -> None:
+def compare_views(ctx, prop: str, mailbox: str = 'INBOX',
+                  issued=None) -> None:
+    """*issued*: the commands of the quiescent step itself; only a session
+    whose NOOP/CHECK is one of them is compared (an older NOOP says nothing
+    about changes made after it)."""
+    issued = {id(c) for c in issued or () if c is not None}
     dump = ctx.probe(mailbox)
     if dump is None:
         return
@@ -51,6 +56,8 @@ def compare_views(ctx, prop: str, mailbox: str = 'INBOX') -> None:
             continue
         last = cl.history[-1] if cl.history else None
         if last is None or last.kind not in ('noop', 'check') or not last.ok:
+            continue
+        if id(last) not in issued:
             continue
         ctx.stat('views_compared')
         uids = sh.uids()
@@ -124,7 +131,7 @@ class C02(Profile):
         def after(ctx, i, step, cmds):
             if step.get('quiesce'):
                 ctx.stat('quiescent_points')
-                compare_views(ctx, 'C02')
+                compare_views(ctx, 'C02', issued=cmds)
         return run_concurrent(case, 'C02', trace, after_step=after)
 
 
